@@ -2,8 +2,16 @@
  * memory).
  *
  * case layout:  target:1 paintA:sel(+payload) paintB:sel(+payload) heapfill:1
- *               hist_len:1  then hist_len x { api:1 amode:1 param:1
- *               small-array-descriptor }  then the target's own arguments
+ *               hist_len:1  then hist_len x { api:1 mode:1 then either
+ *               p1:1 p2:1 small-array-descriptor   (ordinary step: own array /
+ *               the target's array / an array of the target's length, always
+ *               in the step's OWN buffers) or, for one step in three when the
+ *               target takes an input pointer,
+ *               p1:1 p2:1 sel:1 then 1..4 x { op:1 i:2 j:2 x:1 [d:u64] }
+ *               (in-place step: the target's codec or another codec of the
+ *               same input type called on the TARGET's buffers after generated
+ *               edits of their contents, see "in-place edit histories") }
+ *               then the target's own arguments
  *               { p1:1 p2:1 size_class:1 array-descriptor | scalar values }.
  *
  * oracle (1), metamorphic: the target call T (an encoder together with its
@@ -18,6 +26,21 @@
  * Output buffers and output-only metadata structs are pre-filled with the paint
  * pattern of the execution, so a field or byte that the library "reports"
  * without writing it shows up as a difference.
+ *
+ * Input arrays, their narrowed / converted forms (uint32_t, double, uint16_t)
+ * and the encoded form live in buffers that keep their address for the whole
+ * case, so in every execution the library sees the same pointers; the in-place
+ * steps of H present those pointers with other contents (count, count-1 or
+ * count+1 elements) and restore the original contents exactly before the
+ * compared call.
+ *
+ * oracle (1b), in-place steps only: the first in-place call of execution (b)
+ * and the last one of execution (c) are observed like a target call and then
+ * repeated on fresh copies of byte-identical arguments; both results must
+ * agree ("repeating a call ... in a fresh process gives identical results": a
+ * result cannot depend on where the caller keeps the array).  This reaches a
+ * stale entry left by execution (a) itself, which the compared call can never
+ * see because it presents exactly the contents (a) cached.
  *
  * oracle (2): the same cases are replayed in the `msan` configuration; any
  * MemorySanitizer report kills the process and is a violation.  The harness
@@ -1917,6 +1940,22 @@ static void run_inplace(ipctx *c, const ex *xh, const ipstep *s, unsigned hk,
             E.p2 = s->p2;
         }
         conform(E.v, (E.kind == K_GROUP && m > 64) ? 64 : m, kind_flags(E.kind));
+        if (m == n && memcmp(E.v, c->orig, n * sizeof(uint64_t)) == 0) {
+            /* the edits cancelled out (permutation of a constant or re-sorted
+             * array, one element): the identical call is already repeated by
+             * executions (a)-(c), so make the contents differ */
+            if (n >= 2) {
+                const ipedit fb = {E_MOVE, 0, 1, 0, e->x, 0x101, 0x100, 0};
+                ip_apply(E.v, n, &fb);
+            } else {
+                E.v[0] ^= 1ULL << (e->x & 63);
+            }
+            conform(E.v, (E.kind == K_GROUP && n > 64) ? 64 : n,
+                    kind_flags(E.kind));
+            if (c->classes) {
+                vf_class("hist.inplace.fallbackEdit");
+            }
+        }
         snprintf(E.desc, sizeof(E.desc), "%.200s <in-place: %s n=%zu {%s}>", T->desc,
                  kind_name[E.kind], m, what);
         const int first_call = c->ncall == 0;
